@@ -57,6 +57,11 @@ GOLDEN = {"FooBar": "map_foo_bar", "ABCNode": "map_abc_node", "Node2D": "map_nod
 _uid = itertools.count()
 
 
+class PlainMixin:
+    """a plain mix-in: not a node class, no handler name"""
+    tags = ()
+
+
 def make_hierarchy(spec):
     """spec: list of (class name, 'dec'|'legacy', explicit mapper_method or None); each class
     derives from the previous one (the first from Expression).  Returns the classes."""
@@ -66,9 +71,13 @@ def make_hierarchy(spec):
         ns = {"__module__": __name__, "__qualname__": name}
         if explicit is not None:
             ns["mapper_method"] = explicit
+        # "+mixin" / "+mixinlast": the class also derives from a plain class that is no node
+        # class and names no handler, listed before / after its node base
+        kind, _, mix = kind.partition("+")
+        bases = (PlainMixin, base) if mix == "mixin" else (base, PlainMixin) if mix == "mixinlast" else (base,)
         if kind == "dec":
             ns["__annotations__"] = {f"f{len(classes)}": object} if not classes or True else {}
-            cls = type(name, (base,), ns)
+            cls = type(name, bases, ns)
             cls = p.expr_dataclass()(cls)
         else:
             n_parent = len(classes)
@@ -82,7 +91,7 @@ def make_hierarchy(spec):
                 return self._args
             ns.update(__init__=__init__, __getinitargs__=__getinitargs__,
                       init_arg_names=tuple(f"a{i}" for i in range(n_parent + 1)))
-            cls = type(name, (base,), ns)
+            cls = type(name, bases, ns)
         classes.append(cls)
         base = cls
     return classes
@@ -470,11 +479,17 @@ def nest(seq):
         if closed:
             pa = (seq[i][0],) + tuple(seq[i][2:])
             i += 1
-        return (ident, a, k, pa, tuple(sorted(map(repr, kids)))), i
+        # (a digest per level: nested repr() of strings doubles its escapes at every level)
+        return _digest((ident, a, k, pa, tuple(sorted(kids)))), i
     g, i = parse(0)
     if i != len(seq):
         raise ValueError("trailing events")
-    return repr(g)
+    return g
+
+
+def _digest(t):
+    import hashlib
+    return hashlib.sha1(repr(t).encode("utf-8", "backslashreplace")).hexdigest()
 
 
 def has_rebuilt_container(e):
@@ -1063,6 +1078,17 @@ for kinds in itertools.product(["dec", "legacy"], repeat=3):
                 SPECS.append(spec)
 
 
+MIXIN_SPECS = []
+for _spec in SPECS:
+    if len(_spec) >= 2:
+        for _i in range(len(_spec)):
+            for _mix in ("+mixin", "+mixinlast"):
+                if _i == 0 and _spec[0][1] == "legacy":
+                    continue
+                _s2 = [(n_, k_ + (_mix if j_ == _i else ""), e_) for j_, (n_, k_, e_) in enumerate(_spec)]
+                MIXIN_SPECS.append(_s2)
+
+
 def relevant_handlers(spec):
     classes = make_hierarchy(spec)
     names = []
@@ -1077,6 +1103,19 @@ def relevant_handlers(spec):
 def workload(ctx):
     rng = ctx.rng
     with HandlerTrace([mapmod]) as tr:
+        # ... a plain mix-in class among the bases of one level (first or last), all subsets
+        for si, spec in enumerate(MIXIN_SPECS):
+            if not ctx.thorough and si % 4 != ctx.seed % 4:
+                continue
+            names = relevant_handlers(spec)
+            for r in range(len(names) + 1):
+                for subset in itertools.combinations(names, r):
+                    if not ctx.mine("dispatch-mixin"):
+                        continue
+                    for cached in (False, True):
+                        ctx.case(("dispatch", str(spec), subset, cached), True, n=0)
+                        ctx.count("mixin_hierarchies_dispatched")
+                        ctx.run("C04.dispatch", (spec, subset, (), {}, cached))
         # dispatch: all subsets
         for spec in SPECS:
             names = relevant_handlers(spec)
@@ -1173,6 +1212,20 @@ def workload(ctx):
                 ctx.run("C04.walk", (e, args, kw, ()))
                 ctx.run("C04.identity", (e, args, kw))
                 ctx.run("C04.combine", (e, args, kw))
+        # depth: towers of one family (wrapper in wrapper in wrapper, call in call, ...), 3 .. 100
+        fams = scale.family_towers()
+        for fam, wrap in fams.items():
+            for depth in scale.NEST_DEPTHS:
+                if not ctx.mine("deep"):
+                    continue
+                for core in (p.Variable("x"), p.Sum((p.Variable("x"), 1))):
+                    e = scale.nest(wrap, depth, core)
+                    args, kw = rng.choice(ARGS), rng.choice(KWARGS)
+                    ctx.case(("deep", fam, depth, type(core).__name__), True, n=0)
+                    ctx.count("deep_towers")
+                    ctx.run("C04.walk", (e, args, kw, ()))
+                    ctx.run("C04.identity", (e, args, kw))
+                    ctx.run("C04.combine", (e, args, kw))
         # arrays of plain numbers (every numeric dtype), at the root and inside containers:
         # their entries are constants like any other
         xv_ = p.Variable("x")
@@ -1190,6 +1243,8 @@ def workload(ctx):
             ctx.count("handler:" + k, v)
     ctx.floor("wide_nodes", 250)
     ctx.floor("numeric_dtype_arrays", 40)
+    ctx.floor("deep_towers", 400)
+    ctx.floor("mixin_hierarchies_dispatched", 200)
     ctx.floor("evolving_dispatches", 300)
     ctx.floor("explicit_same_as_parent", 10)
     ctx.floor("kind_rewrites", 800)
